@@ -7,8 +7,8 @@
    SessionEntry                     entry        (policy: only the attributes the code reads back)
    SessionCache{sessions,commandMap} cache       (association lists, newest first)
    IsExpired / RenewLease           is_expired / renew_lease
-   Store / Lookup / LookupNonExpired / LookupByCommand / MapCommand /
-   Invalidate / InvalidateExpired   store / lookup / lookup_nonexpired / lookup_by_command /
+   Store (same entry / another entry) / Lookup / LookupNonExpired / LookupByCommand / MapCommand /
+   Invalidate / InvalidateExpired   store, store_new / lookup / lookup_nonexpired / lookup_by_command /
                                     map_command / invalidate / invalidate_expired
    the key strings                  cmd_key      (the real bytes "{tag,addr,<cmd>}" / "{addr,<cmd>}")
    storeClientSession               store_client_session
@@ -107,6 +107,14 @@ Definition cmd_key (tag addr cmd : str) : str :=
 (* Store: c.sessions[entry.id] = entry *)
 Definition store (c : cache) (e : entry) : cache :=
   {| c_sessions := e :: del_sess (e_id e) (c_sessions c); c_cmdmap := c_cmdmap c |}.
+
+(* Store of an entry object other than the one already stored under its id (a new
+   session, or a session registered again): the command mappings of the entry it
+   replaces are removed first.  [store] itself is the re-Store of the very entry that
+   is cached (lease renewal), which keeps them. *)
+Definition store_new (c : cache) (e : entry) : cache :=
+  store {| c_sessions := c_sessions c;
+           c_cmdmap := filter (fun kv => negb (bytes_eqb (snd kv) (e_id e))) (c_cmdmap c) |} e.
 
 (* Lookup *)
 Definition lookup (c : cache) (now : Z) (id : str) : option entry :=
@@ -228,7 +236,7 @@ Definition raw_cmds (valid : str) : list str :=
 Definition store_client_session (c : cache) (now : Z) (tag addr : str) (r : full_ok) : cache :=
   fold_left (fun c' cmd => let cmd' := trim_space cmd in
                            match cmd' with [] => c' | _ => map_command c' tag addr cmd' (f_sid r) end)
-            (raw_cmds (f_valid r)) (store c (client_entry now tag addr r)).
+            (raw_cmds (f_valid r)) (store_new c (client_entry now tag addr r)).
 
 (* resumeSession: effects on the cache and the result *)
 Definition resume_session (c : cache) (now : Z) (e : entry) (p : peer) : cache * outcome :=
